@@ -1,6 +1,7 @@
 import Driver.Proto
 import Gotree.Model.C07
 import Gotree.Model.C07Cmd
+import Gotree.Model.C07Renum
 import Gotree.Spec.C07
 
 namespace Gotree.Driver.C07
@@ -261,7 +262,11 @@ def handleSeq (f : List String) : Verdict :=
       let earlier := steps.dropLast
       let indexed := earlier.any leavesIndexes
       let fresh := b.splits.all fun s => storedSizes stored s.e.id == (b.tipNames.length - s.below.length, s.below.length)
-      let tags0 := ["seq", "seq-len-" ++ toString steps.length] ++ tagIf indexed "indexed" ++ tagIf (!fresh) "stale-sizes" ++
+      -- fidelity: the harness renumbered the branches after the previous step (SetId(i) in Edges() order);
+      -- the model's `renumber` (Model/C07Renum.lean, the one of `resolve_then_collapse`) must be the identity on it
+      let tags0 := ["seq", "seq-len-" ++ toString steps.length] ++ tagIf indexed "indexed" ++
+        tagIf (!earlier.isEmpty && (renumber b).dump == b.dump) "renum-exact" ++
+        tagIf (!earlier.isEmpty && (renumber b).dump != b.dump) "renum-differs" ++ tagIf (!fresh) "stale-sizes" ++
         tagIf (earlier.any fun x => x.startsWith "resolve") "after-resolve" ++
         tagIf (earlier.any fun x => x.startsWith "reroot") "after-reroot" ++
         tagIf (earlier.any fun x => x.startsWith "len" || x.startsWith "sup" || x.startsWith "depth") "after-collapse"
